@@ -1,6 +1,6 @@
 //@ unit tail
 //@ engine kani
-//@ opt harness_timeout 900
+//@ opt harness_timeout 2000
 // C14 (totality half) — crates/rs1090/src/data/tail.rs, verbatim: n_reg, n_letters, n_letter, ja_reg,
 // hl_reg, numeric_reg + NumericMapping::new, stride_reg + StrideMapping::new, tail, and the two mapping
 // tables (the `vec![...]` initialisers of NUMERIC_MAPPINGS / STRIDE_MAPPINGS, rebuilt through the real
